@@ -151,7 +151,10 @@ impl Prop for C08 {
         ensure!(no_negative_circuit(&c.g), "harness: case has a negative circuit (outside the property)");
 
         let mut fw = FloydWarshall::new(&g);
+        let first = fw.distances().clone();
+        // asking the same instance again must give the same matrix
         let dm = fw.distances();
+        ensure!(*dm == first, "a second distances() call on the same instance returned a different matrix");
         let mut unreachable_pair = false;
         let mut long_walk = false;
         let hop_model = m.unweighted();
